@@ -428,6 +428,19 @@ func c01(run *core.Run, replay string) {
 				Shape: sh, Size: v[1], Seed: S + int64(ti*3+vi), HintMode: []string{"absent", "exact"}[(ti+vi)%2], DecJobs: decJ[(ti+vi)%3], Target: t})
 		}
 	}
+	// 6e. stacked stages that each add a header (SRT, BWT, ...) at small block sizes: the expansion accumulates from stage to stage
+	// while the reader undoes the chain in buffers of block size + padding
+	for ci, ch := range []string{"SRT+SRT", "SRT+SRT+SRT", "SRT+SRT+SRT+SRT+SRT+SRT+SRT+SRT", "NONE+SRT+MM+SRT+BWT+BWTS+DNA", "ZRLT+RANK+SRT+SRT+LZP", "SRT+SRT+LZX+DNA+DNA+BWT+MTFT", "SRT+SRT+EXE+LZ+PACK+MTFT+SRT",
+		"SRT+RANK+SRT+ROLZ", "BWT+BWT+BWT+BWT+BWT+BWT+BWT+BWT", "BWTS+SRT+BWT+SRT", "SRT+BWT+SRT+BWT+SRT+BWT+SRT+BWT", "MTFT+SRT+RANK+SRT+MTFT+SRT", "SRT+ZRLT+SRT+RLT+SRT", "UTF+SRT+TEXT+SRT+PACK+SRT"} {
+		for vi, sh := range []string{"utf8dirty", "sorted", "random", "text", "ramp256", "cjk"} {
+			if !run.Thorough() && (ci+vi)%2 == 1 {
+				continue
+			}
+			bs := []uint{1024, 1040, 4096, 2048}[(ci+vi)%4]
+			add(rtCase{Cfg: kz.Cfg{Transform: ch, Entropy: allE[(ci+vi)%len(allE)], BlockSize: bs, Jobs: jobsL[(ci+vi)%len(jobsL)], Checksum: cks[(ci+vi)%3], Headerless: (ci+vi)%7 == 0},
+				Shape: sh, Size: []int{5207, 20487, 1024, 900, 40000}[(ci+vi)%5], Seed: S + int64(ci*7+vi), HintMode: hints[(ci+vi)%len(hints)], DecJobs: decJ[(ci+vi)%len(decJ)]})
+		}
+	}
 	// both variants of the text codec on vocabularies that overflow the dictionary, in a block shorter than the block size
 	for vi, e := range []string{"NONE", "FPAQ", "HUFFMAN", "ANS1", "RANGE", "FPAQ"} {
 		for q := 0; q < 2; q++ {
